@@ -4,6 +4,7 @@ package http1
 
 import (
 	"bytes"
+	"io"
 	"context"
 
 	zz "github.com/cloudwego/hertz/internal/zzverif"
@@ -31,7 +32,7 @@ func ZZ_C11_H1() {
 	for _, c := range hv {
 		zz.Assume(c > 0x20 && c < 0x7f)
 	}
-	bodyMode := zz.Choose("bodymode", 4) // 0 none, 1 bytes, 2 stream known length, 3 stream unknown length
+	bodyMode := zz.Choose("bodymode", 5) // 0 none, 1 bytes, 2 stream known length, 3 stream unknown length, 4 LimitedReader of unknown length
 	body := zz.Bytes("body", zz.Range("lbody", 1, zz.Param("B", 2)))
 
 	var r protocol.Request
@@ -54,6 +55,8 @@ func ZZ_C11_H1() {
 			r.SetBodyStream(bytes.NewReader(body), len(body))
 		case 3:
 			r.SetBodyStream(bytes.NewReader(body), -1)
+		case 4:
+			r.SetBodyStream(io.LimitReader(bytes.NewReader(append(append([]byte(nil), body...), "tail"...)), int64(len(body))), -1)
 		}
 	}
 	wantPath := append([]byte(nil), r.URI().Path()...)
